@@ -7,6 +7,39 @@ ROOT = Path(__file__).resolve().parent.parent
 
 # id -> (level text, level note, technique, design_ref)
 CLAIMED = {
+    "C03": ("Lean 4 model of CouplingMarkovChain / CouplingLevyCopula: refine, the probability of an odd fine state moving right "
+            "(probability_to_right_jump), coupling_state for 1-d and for the n-d corner recursion, and the level record carried by "
+            "next_level (grid, fine/coarse diffusion coefficient, frozen drift, shared Brownian increments). Theorems for every strictly "
+            "increasing axis, every cell-boundary function strictly inside its gap, every mass additive and non-negative on one-sided "
+            "intervals, every level: even increments are copied, odd ones go to an adjacent coarse state; fine cells nest in coarse "
+            "cells; the rate-weighted coupled jumps reproduce exactly the level-(l-1) rates (telescoping_1d, per state, at every level "
+            "of refine^k) and the coarse intensity is the fine one minus the mass sent to the origin; zero-mass cells contribute "
+            "nothing; after l next_level calls the coarse diffusion/drift are those of level l-1 and both chains consume the same "
+            "Brownian increments; n-d: corner probabilities sum to 1 (the 'numerical error' raise is unreachable), telescoping holds "
+            "for independent components; a kernel-decided rational counter-example shows it FAILS for dependent copulas as coded "
+            "(recorded finding). Correspondence: real couplings (1-d, copula, SDE) through 1..3 real next_level calls vs the model fed "
+            "with the implementation's own masses (2^-40), coupling_state at the model's breakpoints with the uniform patched; oracle: "
+            "the telescoping identity on the implementation's exact corner probabilities.",
+            "Partial: n-d theorems for d = 2 on equal axes (d = 3 compared only); dependent-copula telescoping false of the code (known "
+            "finding); additivity of the concrete measures is C09/C11/C12's subject; payoff expectations not modelled; two recorded findings.",
+            "Lean 4 proof (telescoping over nested cells, induction over levels, kernel-decided counter-example) + differential correspondence",
+            "DESIGN.md §4 C03"),
+    "C04": ("Lean 4 model of compute_mu_h (with its own running cell boundary), mu_tilde, process_drift, the equivalent diffusion "
+            "coefficient and the copula variance matrix combination. Theorems for every axis, cell-boundary function, origin and mass: "
+            "compute_mu_h integrates over exactly the cells the rates use and equals sum x_k q_k, hence deterministic drift + "
+            "rate-weighted states = model drift + a_tilde + first moment of the truncated measure outside the compensation region (no "
+            "hypothesis); per-margin version for copula chains with the exact defect when rates and compensator use different "
+            "measures; equivalent diffusion^2 - sigma^2 = second moment of the central cell iff infinite variation; the chain's second "
+            "moment differs from the target by at most the rate-weighted oscillation of x^2 (sandwich hypothesis on the second-moment "
+            "function); kernel-decided witness that adj*adj^T + sigma^2 is not adj + sigma^2. Correspondence: _process_drift, "
+            "equivalent_diffusion_coefficient and every interval compute_mu_h hands to the measure on real chains (four families x "
+            "representations x six grids x refinements, copula margins) vs the model fed the model's own integrals; oracle: mean from "
+            "independent quadrature of the density.",
+            "Partial: the families' closed-form moments (C09) and representation conversion (C10) are inputs; sandwich hypotheses on "
+            "m1/m2 assumed; vol_adjustment_ij quadrature not modelled; four recorded findings (copula margin mean, neighbours from "
+            "first axis, squared variance matrix).",
+            "Lean 4 proof (loop invariant of the running boundary, finite-sum algebra, sandwich bounds) + differential correspondence + quadrature oracle",
+            "DESIGN.md §4 C04"),
     "C09": ("Lean 4 + Mathlib real analysis. For all inputs: the truncated wrapper integrates over the intersection and its density vanishes "
             "outside; the coded split-at-zero / one-sided pattern is additive over adjacent intervals and obeys the sign rules under monotone "
             "tails; integral_xn_exp_minus_x as coded equals the integral of x^n exp(-alpha*abs x) for every n, alpha > 0, a <= b and half-lines "
